@@ -63,6 +63,16 @@ MANIFEST = dict(
         "with container, proxy and expression operands on shapes just below, at, just above and far from every blocking "
         "constant of kernels/default and kernels/cblas that the expression layer reaches (gemm MR=4 NR=6 MC=128 KC=512 "
         "NC=1020, BLAS fallback tile 512, fold_rows 16, transposing assign 8/16, trmv/trmm 128) and 0/1-sized; "
+        "family R: for EVERY translated rule of the rewrite table (86 of 86; list taken from the translator) at least one "
+        "statement that makes exactly this specialisation fire (decided by the class-level interpreter checks/c01cls.py) with "
+        "NON-symmetric arguments - all operand extents distinct, row window != column window and a second window of equal "
+        "extents but different starts, start offsets > 0, folded scalar factors -2 / -3 / -3/2 on both sides, division as "
+        "binary functor, distinct operands on both sides of binary nodes, both repeater orientations and concat directions, "
+        "prod(v,M) beside prod(M,v), functor compositions whose order and members are observable (elem_inv(sqr x), "
+        "sqr(-2 abs x), abs(min(as_rows A))), assigned with = += -= and their noalias forms and every third one also reduced with sum() - so that an argument mix-up inside any single rule has a concrete failing "
+        "input on every run (per-rule counts and the list of never-fired rules are in the evidence; the thorough tier adds "
+        "a second set with windows from the seed); if the Lean side does not build the same programs are run against the "
+        "harness oracle alone, and a broken rule lemma is resolved by a failing input whose statement fires that rule; "
         "(b) generated programs of typed statements (all assignment forms, explicit aliasing incl. two proxies of one "
         "variable, proxies up to nesting depth 5 as targets and operands - sub-range of a row of the transpose of a sub-matrix, "
         "sub-range of a sub-range of a row of rows of a transpose, sub-range of the diagonal of a sub-matrix of a transpose, "
@@ -81,6 +91,9 @@ MANIFEST = dict(
        "every run) and 17 of the 86 sound rules are not part of the generated executable optimiser (their lemmas are proved, the "
        "optimiser skips them); max/min of an EMPTY operand returns numeric_limits lowest()/max() and is outside the denotation; "
        "mixed value types are tied on exactly representable data only (int division and float rounding are not modelled); "
+       "the per-rule witnesses of family R are fixed programs (one or two argument sets per rule, more in the thorough tier), "
+       "the rule range(diagonal_matrix) is exercised on diagonal windows only (its REMORA_RANGE_CHECK precondition); "
+       "whether a statement makes a rule fire is decided by the class-level interpreter of the parsed table, not by the C++ compiler; "
        "shapes beyond the listed boundary values are sampled, not exhausted; the "
        "assignment theorems are about the element loop on an abstract lawful memory, the hand-written model is tied by "
        "the correspondence, the rule table by translation.",
